@@ -406,6 +406,9 @@ func runStress(rec *Rec, sc *StressScen) {
 		close(stopOffer)
 		ow.Wait()
 	}
+	// the library's own client against the library's server over loopback TCP: several real Clients at once, each building
+	// its packets with the library's constructors (random session ids included) and sending PAP-shaped logins
+	libraryClients(sc.Rounds)
 	changed := []int{}
 	for i := range cfgs {
 		if norm(cfgs[i]) != snaps[i] {
@@ -417,3 +420,54 @@ func runStress(rec *Rec, sc *StressScen) {
 }
 
 var _ = tq.MaxBodyLength
+
+type tcpProv struct{}
+
+func (tcpProv) Get(ctx context.Context, remote net.Addr) ([]byte, tq.Handler, error) {
+	return []byte("libkey"), tq.HandlerFunc(func(resp tq.Response, req tq.Request) {
+		resp.Reply(tq.NewAuthenReply(tq.SetAuthenReplyStatus(tq.AuthenStatusFail), tq.SetAuthenReplyServerMsg("no")))
+	}), nil
+}
+
+func libraryClients(rounds int) {
+	ln, err := net.Listen("tcp", "127.0.0.1:0")
+	if err != nil {
+		return
+	}
+	ctx, cancel := context.WithCancel(context.Background())
+	srv := tq.NewServer(NewCapLog(&Rec{Null: true}, false), tcpProv{})
+	done := make(chan struct{})
+	go func() {
+		srv.Serve(ctx, ln.(*net.TCPListener))
+		close(done)
+	}()
+	var wg sync.WaitGroup
+	for g := 0; g < 8; g++ {
+		wg.Add(1)
+		go func(g int) {
+			defer wg.Done()
+			for k := 0; k < 4*rounds; k++ {
+				cl, err := tq.NewClient(tq.SetClientDialer("tcp", ln.Addr().String(), []byte("libkey")))
+				if err != nil {
+					return
+				}
+				for i := 0; i < 3; i++ {
+					h := tq.NewHeader(tq.SetHeaderVersion(tq.Version{MajorVersion: tq.MajorVersion, MinorVersion: 1}), tq.SetHeaderType(tq.Authenticate),
+						tq.SetHeaderRandomSessionID())
+					body := tq.NewAuthenStart(tq.SetAuthenStartAction(tq.AuthenActionLogin), tq.SetAuthenStartPrivLvl(1), tq.SetAuthenStartType(tq.AuthenTypePAP),
+						tq.SetAuthenStartService(tq.AuthenServiceLogin), tq.SetAuthenStartUser("u"), tq.SetAuthenStartPort("tty0"), tq.SetAuthenStartRemAddr("r"),
+						tq.SetAuthenStartData("pw"))
+					cl.Send(tq.NewPacket(tq.SetPacketHeader(h), tq.SetPacketBodyUnsafe(body)))
+				}
+				cl.Close()
+			}
+		}(g)
+	}
+	wg.Wait()
+	cancel()
+	ln.Close()
+	select {
+	case <-done:
+	case <-time.After(15 * time.Second):
+	}
+}
